@@ -1063,6 +1063,11 @@ theorem rel_step (s : World) (j : JState) (h : Rel s j) (c : Cmd) :
   | tcleanup => exact rel_tcleanup s j h
   | mt kind args => simp only [stepE]; exact rel_same s j h _ rfl
   | hbrace ms => simp only [stepE]; exact rel_same s j h _ rfl
+  | hbowed =>
+    simp only [stepE]
+    have hk : Gen.C19.hbClearsFlagFirst = true := rfl
+    rw [hk]
+    exact rel_same s j h _ rfl
 
 theorem rel_run (cmds : List Cmd) : ∀ (s : World) (j : JState), Rel s j →
     Rel (runE s cmds).1 (judgeRun j (runE s cmds).2) := by
